@@ -111,7 +111,7 @@ func TestC05Sim(t *testing.T) {
 	runSimCheck(t, simCheck{
 		Property: "C05", Name: "C05Sim",
 		Rule:   "whole-system scenarios with resolve / re-fire timelines, both values of send_resolved, slow/failing/hanging integrations. Non-trivial: >=1 resolved obligation evaluated or a resolved alert was listed.",
-		Params: sim.GenParams{Faults: true, Silences: true, Gets: true, Flap: true},
+		Params: sim.GenParams{Faults: true, Silences: true, Gets: true, Flap: true, MuteGap: true},
 		NonTrivial: func(st sim.Stats, sc *sim.Scenario, tr *sim.Trace) bool {
 			for _, a := range tr.Attempts {
 				for _, al := range a.Alerts {
